@@ -305,7 +305,8 @@ def factor_lineages(ctx, graphs, realisations):
                     root = fac.build()
                 objs = [(1, root, frozenset())]
                 nobj = 1
-                subsets = [S for k in range(1, len(P) + 1) for S in itertools.combinations(P, k)]
+                allv = [v] + P          # the own variable too: conditioning on it (the data) gives a likelihood of the parents
+                subsets = [S for k in range(1, len(allv) + 1) for S in itertools.combinations(allv, k)]
                 for S in subsets:
                     try:
                         with quiet():
@@ -323,7 +324,7 @@ def factor_lineages(ctx, graphs, realisations):
                     events.append({"e": "condition", "obj": 1, "given": [loc[p] for p in S], "res": nobj, "names": names, "cls": type(res).__name__})
                     objs.append((nobj, res, frozenset(S)))
                     rest = [p for p in P if p not in S]
-                    if rest and len(S) == 1:           # second stage: the remaining parents
+                    if rest and len(S) == 1:           # second stage: the remaining parents (the own variable stays free or fixed)
                         try:
                             with quiet():
                                 res2 = res(**{jg.name(p): vals[p] for p in rest})
@@ -331,7 +332,7 @@ def factor_lineages(ctx, graphs, realisations):
                             names = [loc[u] for u in loc if jg.name(u) in set(res2.get_parameter_names())]
                             events.append({"e": "condition", "obj": nobj - 1, "given": [loc[p] for p in rest], "res": nobj, "names": names,
                                            "cls": type(res2).__name__})
-                            objs.append((nobj, res2, frozenset(P)))
+                            objs.append((nobj, res2, frozenset(S) | frozenset(rest)))
                         except Exception:
                             events.append({"e": "condition", "obj": nobj, "given": [loc[p] for p in rest], "res": 0, "names": [], "cls": "refused"})
                 exp = fac.oracle(vals)
@@ -339,6 +340,11 @@ def factor_lineages(ctx, graphs, realisations):
                     free = [u for u in loc if u not in F]
                     kw = {jg.name(u): vals[u] for u in free}
                     calls = [("complete", dict(kw), False)]
+                    if len(kw) >= 2:
+                        # keyword order is immaterial: once in the order of the variables, once reversed
+                        calls.append(("complete_reversed", dict(reversed(list(kw.items()))), False))
+                    if not free:
+                        calls = calls[:1]
                     for u in free:
                         miss = dict(kw)
                         miss.pop(jg.name(u))
@@ -347,8 +353,9 @@ def factor_lineages(ctx, graphs, realisations):
                         mis = dict(miss)
                         mis["zz_unknown"] = vals[u]
                         calls.append(("misnamed", mis, True))
-                    calls.append(("surplus", dict(kw, zz_unknown=np.ones(1)), True))
-                    for u in F:
+                    if free:
+                        calls.append(("surplus", dict(kw, zz_unknown=np.ones(1)), True))
+                    for u in (F if free else ()):
                         calls.append(("refixed", dict(kw, **{jg.name(u): vals[u]}), False))
                         break
                     for what, k, malformed in calls:
@@ -419,7 +426,7 @@ def run(ctx):
     if not ft:
         raise MachineryError("no stand-alone conditional factor was exercised")
     okf = validate_lineages(ctx, ft, "standalone-factors")
-    for need_call in ("complete", "missing", "misnamed", "surplus", "refixed"):
+    for need_call in ("complete", "complete_reversed", "missing", "misnamed", "surplus", "refixed"):
         if not ctx.facets.get("factor_call/" + need_call):
             raise MachineryError("vacuous stand-alone factor facet: no %s call" % need_call)
     if ctx.tier == "thorough":
